@@ -90,6 +90,18 @@ def run_case(ctx, rng, idx):
         for force in ((50, "edge", True), (50, "stub", True), (50, "edge", False), (400, "stub", False)):
             undirected(ctx, rng, idx, hb, [tuple(e) for e in hb.get_edges()], phase=1, force=force)
         return
+    if idx == 4 or (ctx.tier == "thorough" and idx % 700 == 12):
+        # hyperedges of (almost) pairwise different sizes: two hyperedges drawn at random rarely have the same size, so
+        # the size-respecting proposal has to search for its pair
+        import hypergraphx as hgx
+
+        ctx.event("pairwise-different-sizes")
+        nodes = list(range(0, 300, 3))
+        es = [tuple(sorted(rng.sample(nodes, sz))) for sz in range(2, 42)]
+        hb = hgx.Hypergraph(es)
+        for force in ((50, "edge", True), (200, "stub", True), (200, "edge", True)):
+            undirected(ctx, rng, idx, hb, [tuple(e) for e in hb.get_edges()], phase=1, force=force)
+        return
     if idx == 1 or (ctx.tier == "thorough" and idx % 700 == 9):
         from ..gen import big_hypergraph
 
@@ -121,6 +133,7 @@ def undirected(ctx, rng, idx, h, edges, phase, force=None):
     elif sel == "order":
         kw["order"] = k - 1
     code = probes.find_code(cm._cm_MCMC, "mh_step")
+    positional = rng.random() < 0.25
     for seed in (rng.randrange(2**31), rng.randrange(2**31)):
         chain = {"steps": 0, "states": set(), "bad": None}
         moving = [e for e in edges if sel is None or len(e) == k]
@@ -143,14 +156,20 @@ def undirected(ctx, rng, idx, h, edges, phase, force=None):
                     chain["bad"] = "degree-changed"
 
         def wit(extra=None):
-            return {"edges": edges if len(edges) <= 40 else len(edges), "params": kw, "numpy_seed": seed, "extra": repr(extra)[:900]}
+            return {"edges": edges if len(edges) <= 40 else len(edges), "params": kw, "positional_call": positional, "numpy_seed": seed, "extra": repr(extra)[:900]}
 
         np.random.seed(seed)
+        if positional:
+            # the documented parameter order: (hypergraph, n_steps, label, order, size, n_clash, detailed)
+            args = (h, n_steps, label, kw.get("order"), kw.get("size"), 1, detailed)
+            run = lambda: quiet(cm.configuration_model, *args)
+        else:
+            run = lambda: quiet(cm.configuration_model, h, **kw)
         if code is not None:
             with probes.attached(code, "PY_RETURN", on_step):
-                r = call(quiet, cm.configuration_model, h, **kw)
+                r = call(run)
         else:
-            r = call(quiet, cm.configuration_model, h, **kw)
+            r = call(run)
         if code is not None and (n_steps == 0 or chain["steps"] == n_steps):
             ctx.tick("C13:chain-step-observed", chain["steps"])
         elif code is not None:
